@@ -5,6 +5,30 @@ ALL = ["C%02d" % i for i in range(1, 21)]
 TB = ("Trusted: Coq 8.16.1 kernel + bytecode VM (vm_compute; no native_compute); the Python harness "
       "(generators, exact float->rational conversion, epgpy drivers); NumPy/CPython. ")
 CLAIMED = {
+ "C03": dict(
+   text="Machine-checked proof (Coq), PARTIAL: (a) all 17 closed-form second-derivative arrays of T, Phi, E, P, R, TRANSLATED from the source "
+        "on every run, are proved to be the derivatives (Coquelicot is_derive) of the translated first-derivative arrays, for BOTH orders of "
+        "differentiation of every mixed entry, and the parameter pairs absent from PARAMETERS_ORDER2 are proved identically zero; (b) "
+        "hessian_symmetric for every state and variable list on the literal model of _apply_order2. Exactness/completeness of the second-order "
+        "BOOKKEEPING over programs is not yet a theorem: the literal transcription of _apply_order2 (Model/Diff.v) is tied to diff.py by exact "
+        "correspondence of sm.order2 after every operator and checked against Richardson finite differences of simulate() for random coefficient "
+        "maps (variables driving several parameters, pairs across operators, explicit pair lists) -- that part is testing.",
+   design_ref="DESIGN.md section 4 C03, section 9 items 6 and 10b",
+   note=TB + "Translator validated by the Interval tie. Missing for a full proof: the jet-level theorem order2_step/order2_run (planned as for C02's order1_run). "
+        "Axioms: classical reals, funext, classic for (a); none for (b).",
+   technique="Coq proof (real analysis on translated second-derivative tables; symmetry) + exact correspondence + finite-difference oracle"),
+ "C16": dict(
+   text="Machine-checked proof (Coq) on an executable state-machine model of ArrayCollection faithful to the code (insertion-ordered dicts, layouts with "
+        "one Ellipsis anywhere, caches, in-place branch of update, linked child): resize_centre (pad/crop about the centre for any lengths and parity), "
+        "cache_reachable (cached shapes = recomputation after ANY call history, no precondition), inv_reachable_partial / inv_get (every get has the common "
+        "shape in its broadcast axes and its own sizes elsewhere, over all histories of checked insertions), named_axes_single, set_incompatible_raises "
+        "(every layout), copy_equal; three clauses are REFUTED with vm_compute witnesses replayed on the implementation and listed as known findings "
+        "(unchecked fallback of update; link propagation).",
+   design_ref="DESIGN.md section 4 C16, section 9 item 13",
+   note=TB + "Model/Collection.v + Model/NdArray.v hand-written; tied to statematrix.py by exact correspondence of exception class, .shape, .axes and every get(name) "
+        "(shape and integer values) after every call of generated histories (exhaustive short ones in the thorough tier); value-level equality of get results and the "
+        "StateMatrix wrappers are covered by the correspondence only. Axioms: none.",
+   technique="Coq proof (invariants by induction over call histories) + exact history correspondence"),
  "C11": dict(
    text="Machine-checked proof (Coq) over a model partly GENERATED from sequence.py on every run (the `math` function table with its derivative "
         "templates, the virtual-operator table and the __init__ signatures of the concrete classes): deriv_table_sound (every table entry is the "
